@@ -100,6 +100,17 @@ def run(ctx):
             raise common.MachineryError("witness failed: Range.tla with Fixed=FALSE satisfies all invariants")
         ctx.notes.append("witness: original merge loop (Fixed=FALSE) violates %s after %d states" % (wres.violated, wres.distinct))
 
+    # Apalache: the same invariants for ALL natural sizes and numbers (up to three specs), decided symbolically
+    ok, info = tlc.run_apalache(wd, "RangeSym", {"Fixed": True})
+    if not ok:
+        raise common.MachineryError("RangeSym.tla (Apalache): invariant violated over unbounded naturals: %r" % (info,))
+    ctx.models.append({"model": "RangeSym (Apalache, unbounded naturals, <= 3 specs, length 1)", "result": "NoError", "wall_s": info["wall_s"]})
+    if ctx.tier == "thorough":
+        wok, winfo = tlc.run_apalache(wd, "RangeSym", {"Fixed": False})
+        if wok:
+            raise common.MachineryError("witness failed: RangeSym.tla with Fixed=FALSE satisfies the invariants")
+        ctx.notes.append("witness (Apalache): original pipeline violates the invariants, e.g. %s" % (winfo.get("counterexample"),))
+
     g = graph.Graph.load(res.dot)
     n = 0
     for nid in g.terminal():
